@@ -565,9 +565,6 @@ def run(ctx):
             case = doc["case"]
             r = eval_case(model, case["cfg"], ops=case["ops"])
             ncorpus += 1
-            if r["mismatch"]:
-                ctx.violation("corpus case %s: model and implementation differ at step %d" % (fn, r["mismatch"]["step"]),
-                              case, no_input=True, theorem="correspondence StateModel.run vs cloudsync.sync.state")
             exp = doc.get("expect")
             got = None
             if r["err"] == 0:
@@ -581,6 +578,9 @@ def run(ctx):
             if got is not None:
                 # the real code violates the property on this exact case: known finding or VIOLATION
                 ctx.violation("corpus case %s: %s on the real SyncState (%s)" % (fn, got, doc.get("what", "")), case)
+            elif r["mismatch"]:
+                ctx.violation("corpus case %s: model and implementation differ at step %d" % (fn, r["mismatch"]["step"]),
+                              case, no_input=True, theorem="correspondence StateModel.run vs cloudsync.sync.state")
             if exp is not None and exp != got:
                 ctx.notes.append("corpus case %s expected %s, observed %s" % (fn, exp, got))
                 if exp and got is None:
